@@ -778,7 +778,7 @@ Qed.
 
 Example split_example :
   let R1 := mk KChunk (POpaque 1) in let R2 := mk KChunk (POpaque 2) in let R3 := mk KChunk (POpaque 3) in
-  let pre := [Cmd 1 {| cq := QMajority; ctarget := None; cisreg := false |};
+  let pre := [Cmd 1 {| cq := QMajority; ctarget := None; cisreg := false; cholders := [] |};
               Found 0 (Some 1) R1; Found 0 (Some 2) R2; Found 0 (Some 3) R3; Found 0 (Some 4) R1] in
   In (0, ESplit [(R1, [1; 4]); (R2, [2]); (R3, [3])]) (step_outs (final pre) (Finished 0)).
 Proof. vm_compute. left. reflexivity. Qed.
@@ -831,7 +831,7 @@ Qed.
 Definition mm_tx : record := {| rkey := 5; rcont := tx_content [2]; rpub := None |}.
 Definition mm_pad : record := {| rkey := 5; rcont := {| ckind := Some KPad; cpay := PPad true 1 1 |}; rpub := None |}.
 Definition mm_pre : list event :=
-  [Cmd 5 {| cq := QN 3; ctarget := None; cisreg := false |};
+  [Cmd 5 {| cq := QN 3; ctarget := None; cisreg := false; cholders := [] |};
    Found 0 (Some 1) mm_tx; Found 0 (Some 2) mm_pad; Found 0 (Some 8) mm_pad].
 
 Lemma merged_drops_quorum_version_refuted_lemma :
@@ -1018,7 +1018,7 @@ Proof.
 Qed.
 
 Example wf_trace_example :
-  wf_trace [Cmd 1 {| cq := QMajority; ctarget := None; cisreg := false |};
+  wf_trace [Cmd 1 {| cq := QMajority; ctarget := None; cisreg := false; cholders := [] |};
             Found 0 (Some 1) (mk KChunk (POpaque 1)); Found 0 (Some 2) (mk KChunk (POpaque 2)); Finished 0].
 Proof.
   intros pre q po r post E.
@@ -1031,7 +1031,7 @@ Qed.
 (* ------------------------------------------------------------------------------------------ *)
 (* further non-vacuity examples                                                                *)
 
-Definition ex_cfg (q : quorum) : cfg := {| cq := q; ctarget := None; cisreg := false |}.
+Definition ex_cfg (q : quorum) : cfg := {| cq := q; ctarget := None; cisreg := false; cholders := [] |}.
 Definition ex_tx (l : list N) : record := {| rkey := 3; rcont := tx_content l; rpub := None |}.
 
 (* the quorum is reached on a split of transaction versions: Ok(sorted union) *)
